@@ -8,6 +8,7 @@ import (
 )
 
 func init() {
+	vrt.Register("zzverif.VC01NoOp", VC01NoOp)
 	vrt.Register("zzverif.VC01", VC01)
 }
 
@@ -104,7 +105,7 @@ func memShape(mode int) MemSpec {
 
 var alu = []string{"ADD", "SUB", "CMP", "AND", "OR", "XOR"}
 var c01Forms = []string{
-	"mov_rr", "mov_ri", "mov_rm", "mov_mr", "mov_mi", "mov_sr", "mov_rs", "mov_cr", "mov_rc", "mov_acc_abs", "mov_abs_acc",
+	"mov_rr", "mov_ri", "mov_rm", "mov_mr", "mov_mi", "mov_sr", "mov_rs", "mov_sm", "mov_ms", "mov_cr", "mov_rc", "mov_acc_abs", "mov_abs_acc",
 	"alu_rr", "alu_ri", "alu_rm", "alu_mr", "alu_mi", "not_r", "not_m", "shift_ri", "shift_mi", "imul_ri", "imul_rr",
 	"in_imm", "in_dx", "out_imm", "out_dx", "push_r", "pop_r", "push_s", "pop_s", "push_i", "push_m", "pop_m", "int_n", "ret", "lgdt",
 }
@@ -135,6 +136,14 @@ func buildC01(form string, mode int) Stmt {
 		return mkStmt("MOV", mode, R(vrt.ChooseStr("sr", []string{"ES", "SS", "DS", "FS", "GS"})), R(vrt.ChooseStr("ra", r16)))
 	case "mov_rs":
 		return mkStmt("MOV", mode, R(vrt.ChooseStr("ra", r16)), R(vrt.ChooseStr("sr", sregs)))
+	case "mov_sm":
+		st := mkStmt("MOV", mode, R(vrt.ChooseStr("sr", []string{"ES", "SS", "DS", "FS", "GS"})), M(memShapeFew(mode)))
+		st.Want.Ops[1].Size = 0 // a 16-bit load whatever the operand-size attribute
+		return st
+	case "mov_ms":
+		st := mkStmt("MOV", mode, M(memShapeFew(mode)), R(vrt.ChooseStr("sr", sregs)))
+		st.Want.Ops[0].Size = 0
+		return st
 	case "mov_cr":
 		return mkStmt("MOV", mode, R(vrt.ChooseStr("cr", cregs)), R(vrt.ChooseStr("ra", r32)))
 	case "mov_rc":
@@ -289,4 +298,71 @@ func VC01() {
 	form := vrt.ChooseStr("form", c01Forms)
 	st := buildC01(form, mode)
 	checkStmt(st, mode, "c01.decode")
+}
+
+
+// no-operand instructions: mnemonic, the decoder's name for it, and the
+// operand size it denotes (0: the mode's own size or size-less; 16/32: that
+// size whatever the mode, so a 66h prefix is needed in the other mode)
+var c01NoOps = []struct {
+	mn, op string
+	size   int
+}{
+	{"HLT", "HLT", 0}, {"NOP", "NOP", 0}, {"CLI", "CLI", 0}, {"STI", "STI", 0}, {"CLD", "CLD", 0}, {"STD", "STD", 0}, {"CLC", "CLC", 0}, {"STC", "STC", 0}, {"CMC", "CMC", 0},
+	{"LAHF", "LAHF", 0}, {"SAHF", "SAHF", 0}, {"LEAVE", "LEAVE", 0}, {"WAIT", "WAIT", 0}, {"INTO", "INTO", 0}, {"RET", "RET", 0}, {"RETF", "RETF", 0}, {"XLATB", "XLATB", 0},
+	{"AAA", "AAA", 0}, {"AAS", "AAS", 0}, {"DAA", "DAA", 0}, {"DAS", "DAS", 0}, {"AAD", "AAD", 0}, {"AAM", "AAM", 0},
+	{"CPUID", "CPUID", 0}, {"CLTS", "CLTS", 0}, {"INVD", "INVD", 0}, {"WBINVD", "WBINVD", 0}, {"RDMSR", "RDMSR", 0}, {"WRMSR", "WRMSR", 0}, {"RDPMC", "RDPMC", 0}, {"RDTSC", "RDTSC", 0}, {"RSM", "RSM", 0}, {"UD2", "UD2", 0},
+	{"CBW", "CBW", 16}, {"CWDE", "CWDE", 32}, {"CWD", "CWD", 16}, {"CDQ", "CDQ", 32},
+	{"PUSHA", "PUSHA", 0}, {"POPA", "POPA", 0}, {"PUSHF", "PUSHF", 0}, {"POPF", "POPF", 0}, {"IRET", "IRET", 0},
+	{"PUSHAD", "PUSHA", 32}, {"POPAD", "POPA", 32}, {"PUSHFD", "PUSHF", 32}, {"POPFD", "POPF", 32}, {"IRETD", "IRET", 32},
+	{"PUSHAW", "PUSHA", 16}, {"POPAW", "POPA", 16}, {"PUSHFW", "PUSHF", 16}, {"POPFW", "POPF", 16}, {"IRETW", "IRET", 16},
+	{"MOVSB", "MOVSB", 0}, {"MOVSW", "MOVSW", 16}, {"MOVSD", "MOVSW", 32}, {"CMPSB", "CMPSB", 0}, {"CMPSW", "CMPSW", 16}, {"CMPSD", "CMPSW", 32},
+	{"STOSB", "STOSB", 0}, {"STOSW", "STOSW", 16}, {"STOSD", "STOSW", 32}, {"LODSB", "LODSB", 0}, {"LODSW", "LODSW", 16}, {"LODSD", "LODSW", 32},
+	{"SCASB", "SCASB", 0}, {"SCASW", "SCASW", 16}, {"SCASD", "SCASW", 32}, {"INSB", "INSB", 0}, {"INSW", "INSW", 16}, {"INSD", "INSW", 32},
+	{"OUTSB", "OUTSB", 0}, {"OUTSW", "OUTSW", 16}, {"OUTSD", "OUTSW", 32},
+}
+
+// VC01NoOp: instructions without operands: the bytes decode to that
+// instruction at the operand size its name fixes (CWDE, PUSHAD, MOVSD are
+// 32-bit operations in 16-bit code too: a 66h prefix is then required, and
+// must be absent where the name's size is the mode's).
+func VC01NoOp() {
+	mode := []int{16, 32}[vrt.Choose("mode", 2)]
+	names := make([]string, len(c01NoOps))
+	for i, x := range c01NoOps {
+		names[i] = x.mn
+	}
+	mnName := vrt.ChooseStr("mn", names)
+	e := c01NoOps[0]
+	for _, x := range c01NoOps {
+		if x.mn == mnName {
+			e = x
+		}
+	}
+	src := bitsHeader(mode) + e.mn + "\nlbl:\nDW lbl\n"
+	vrt.Note("src", src)
+	out, oc := AssembleT(src, nil, "s")
+	vrt.Note("outcome", oc)
+	vrt.NoteBytes("bytes", out)
+	if oc != "ok" || diagnosed() || len(out) < 3 {
+		vrt.Reach("c01n.rejected")
+		return
+	}
+	vrt.Reach("c01n.accepted")
+	code := out[:len(out)-2]
+	inst, ok := x86ref.Decode(code, mode, 0)
+	var acc diffAcc
+	acc.flag(!ok)
+	acc.flag(inst.Len != len(code))
+	acc.flag(inst.Op != e.op)
+	if e.size != 0 {
+		acc.flag(inst.OpSize != e.size)
+	} else {
+		acc.flag(inst.Has66) // a size-less instruction carries no operand-size prefix
+	}
+	if e.op == "AAD" || e.op == "AAM" {
+		acc.flag(inst.NOps != 1 || inst.Ops[0].Imm != 10)
+	}
+	acc.eqLE(out[len(out)-2:], int64(len(code)))
+	vrt.Assert(acc.d == 0, "c01.noop")
 }
